@@ -1212,6 +1212,31 @@ def wl_relations(run, rng, idx):
             run.current_case = dict(case, other_centres=c3, other_radii=r3)
             guard(lambda: A.contains(E, broadcast="pairwise"))
             guard(lambda: E.intersects(A, broadcast="pairwise"))
+    # arrays that MIX bounded disks and disks containing infinity, of different
+    # lengths (seeded change C20-r2-1: transposed case masks in pairwise mode are
+    # invisible for homogeneous arrays and for square shapes)
+    if idx % 2 == 0:
+        k1, k2 = [(3, 2), (2, 4), (4, 3), (1, 3)][(idx // 2) % 4]
+
+        def mixed(k):
+            c, r = rand_disk_params(rng, (k,), "generic")
+            mask = rng.random(k) < 0.5
+            if k > 1 and mask.all() or not mask.any():
+                mask[0] = not mask[0]
+            data = np.where(mask[:, None, None], data_disk(rng, c, r, True),
+                            data_disk(rng, c, r, False))
+            return guard(lambda: cpm.CP1Disk(data)), mask
+        (A, ma), (B, mb) = mixed(k1), mixed(k2)
+        if A is not None and B is not None:
+            run.current_case = dict(case, mixed_arrays=True, bounded_A=ma, bounded_B=mb)
+            run.note_class("relations-mixed", k1, k2, int(ma.sum()), int(mb.sum()))
+            guard(lambda: A.contains(B, broadcast="pairwise"))
+            guard(lambda: A.intersects(B, broadcast="pairwise"))
+            guard(lambda: B.contains(A, broadcast="pairwise"))
+            guard(lambda: B.intersects(A, broadcast="pairwise"))
+            if k1 == k2:
+                guard(lambda: A.contains(B))
+                guard(lambda: A.intersects(B))
     if idx < 2:
         run.sample(case)
 
